@@ -194,9 +194,11 @@ def next_op(r, sp, shadow, used_names, first=False):
     if op == 'values':
         return {'op': 'values', **formula(r, sp, 'real')}
     if op == 'scale_column':
-        cands = sp.real + sp.pos + sp.key
+        cands = sp.real + sp.pos + sp.key + sp.const
         c = r.choice(cands)
-        if c in sp.key:
+        if c in sp.const:  # not used by formulas: any factor, also a float factor on an int64 column
+            s = r.choice([0.5, 2, -1.0, 0.1, 3, 1 / 3])
+        elif c in sp.key:
             s = r.choice([2, 3, 10])
         elif c in sp.pos:
             s = r.choice([0.5, 2.0, 10, 0.01, 3, 1 / 3, 100.0, 1.0])
